@@ -10,6 +10,7 @@ is valid of all solutions, in particular of the selection pruned to the reachabl
 the derivation that follows a backjump is the correctness of the satisfier search).
 -/
 import PubgrubProofs.ReachabilityC04
+import PubgrubProofs.RangeAnyOrder
 
 namespace Pubgrub.C04
 open Pubgrub
@@ -23,5 +24,20 @@ theorem C04_solution_reachable (W : World P S V M) (hW : W.SetsValid) (debug : B
     (p : P) (v : V) (hp : SmallMap.get sel p = some v) :
     ReachableFrom W root (fun q => SmallMap.get sel q) p :=
   solution_reachable W hW debug fuel root rv s sel h p v hp
+
+/-! ### `Range V` over ANY linear order (the discrete `u32`, `SemanticVersion` included), where `Range` is
+not a `LawfulVersionSet`: pulled back along the embedding into `Range (V ×ₗ ℚ)` (RangeHom, HomSolver,
+RangeAnyOrder) -/
+section AnyOrder
+variable {P V M Pr E : Type} [DecidableEq P] [LinearOrder V] [LE Pr] [DecidableLE Pr]
+
+theorem C04_range_solution_reachable (W : World P (Range V) V M) (hW : W.RangesWF) (debug : Bool) (fuel : Nat)
+    (root : P) (rv : V) (s : SolverState P (Range V) V M Pr) (sel : List (P × V))
+    (h : ReachableWB (E := E) W debug fuel root rv (s, .solution sel))
+    (p : P) (v : V) (hp : SmallMap.get sel p = some v) :
+    ReachableFrom W root (fun q => SmallMap.get sel q) p :=
+  range_solution_reachable W hW debug fuel root rv s sel h p v hp
+
+end AnyOrder
 
 end Pubgrub.C04
